@@ -96,6 +96,8 @@ def run(tier, seed):
     firsts = names[:8] if tier == "quick" else names
     seconds = ["callee-locals", "module-throws", "generator-mid", "eval-script-order", "eval-module-order"] if tier == "quick" else names[::3] + ["eval-script-order", "eval-script-plain", "eval-module-order", "eval-module-throws"]
     firsts = firsts + ["module-exports-then-throws", "eval-module-throws"] if tier == "quick" else firsts
+    seconds = list(dict.fromkeys(seconds))
+    firsts = list(dict.fromkeys(firsts))
     for f in firsts:
         for stop in ([7, None] if tier == "quick" else [3, 7, 15, 40, None]):
             for s in seconds:
